@@ -24,6 +24,18 @@ func TestVerifC18ServerSelectsEachShare(t *testing.T) {
 		src := vfGenTLS13Src(rt)
 		if alt, ok := vf18HybridCaptureSrc(rt); ok {
 			src = alt
+		} else if rapid.IntRange(0, 5).Draw(rt, "keyshare_weights") == 0 {
+			// randomized specs with the weights that shape key_share set by the application (the documented legacy
+			// switch FirstKeyShare_Set_CurveP256 included): the corner where several coins decide about one group
+			src = vfGenRandomizedID(rt, "ksw")
+			w := *src.ID.Weights
+			w.TLSVersMax_Set_VersionTLS13 = 1
+			w.FirstKeyShare_Set_CurveP256 = rapid.SampledFrom([]float64{1, 1, 0.5}).Draw(rt, "ksw_firstp256")
+			w.KeyShare_Append_RandomGroups = rapid.SampledFrom([]float64{1, 1, 0.5, 0}).Draw(rt, "ksw_append")
+			w.CurveIDs_Append_X25519 = rapid.SampledFrom([]float64{0, 1, 0.5}).Draw(rt, "ksw_x25519")
+			src.ID.Weights = &w
+			src.Name += fmt.Sprintf("+keyshare-weights(first-p256=%.1f,append=%.1f,x25519=%.1f)", w.FirstKeyShare_Set_CurveP256, w.KeyShare_Append_RandomGroups, w.CurveIDs_Append_X25519)
+			st.Class("randomized:key-share-weights-set")
 		}
 		sni := vfGenDNSName(rt, "sni")
 		probe, err := vfPrepareClient(src, sni, 1, nil)
